@@ -333,6 +333,33 @@ func genConstOpt(b *builder, c *corpus, nSites int) {
 	b.drawFaults(nSites, true)
 }
 
+// T3 (thorough): a long history of 50-200 compilations on one reused backend.
+func genLongHistory(b *builder, c *corpus, nSites int) {
+	t := b.task()
+	be := b.newBackend()
+	var mods []int
+	for i := 0; i < 4+b.r.intn(5); i++ {
+		m, _ := b.lower(t, pick(b.r, c.lowerable))
+		mods = append(mods, m)
+	}
+	for i := 0; i < 50+b.r.intn(151); i++ {
+		b.add(t, proto.Op{Kind: proto.OpSpirvB, Mod: pick(b.r, mods), Backend: be})
+	}
+	b.drawFaults(nSites, false)
+	b.sc.Monitor = 0
+}
+
+var familiesC12Thorough = []family{
+	{"seq-multi", 22, genSeqMulti},
+	{"reuse", 18, genReuse},
+	{"conc-shared", 22, genConcShared},
+	{"conc-separate", 12, genConcSeparate},
+	{"maporder", 14, genMapOrder},
+	{"private", 6, genPrivate},
+	{"scribble", 6, genScribble},
+	{"long-history", 1, genLongHistory},
+}
+
 var familiesC12 = []family{
 	{"seq-multi", 22, genSeqMulti},
 	{"reuse", 18, genReuse},
